@@ -138,6 +138,16 @@ def run(ctx):
     cases.append({"desc": "alloc:2000 slices, one block numbered %d|one slice damaged" % bigexp, "fs": bfs, "implonly": True,
                   "alloc_class": "coder-sized-by-highest-exponent",
                   "vline": L.line_verify("p2", "mem", ps.index, 1, bfs), "rline": L.line_repair("p2", "mem", ps.index, False, 1, bfs)})
+    # one file id listed n times in the main packet (ids need only be sorted non-strictly): n x k shard slots for an index of 16n + 20k bytes
+    ndup = 3000
+    dupset = R.MutSet([("many.bin", L.gen_content(rng, "random", 4 * 3000))], 4, main={"ids": lambda ids: [ids[0]] * ndup, "count": ndup})
+    darc = R.archive(dupset, [0])
+    dfs = {P.DIR + "/many.bin": dupset.files[0]["data"]}
+    dfs.update(darc)
+    cases.append({"desc": "alloc:one file id listed %d times, 3000 slices|intact" % ndup, "fs": dfs, "implonly": True,
+                  "alloc_class": "duplicate-file-ids",
+                  "vline": L.line_verify("p2", "mem", dupset.index if hasattr(dupset, "index") else ps.index, 1, dfs),
+                  "rline": L.line_repair("p2", "mem", dupset.index if hasattr(dupset, "index") else ps.index, False, 1, dfs)})
     import os
     aenv = dict(os.environ, VH_ALLOC="1")
     vi = ctx.run_lines(vh, [c["vline"] for c in cases], vmem_kb=6 << 20, timeout=3000, env=aenv)
